@@ -92,8 +92,12 @@ def make_case(ctx, rng, route, norb):
                     z = small() + (1j * small() if i != j and rng.random() < 0.5 else 0)
                     h1[i, j], h1[j, i] = z, numpy.conj(z)
         h1[0, norb] = h1[norb, 0] = 0.5
-        ham = fqe.get_gso_hamiltonian((h1,), e_0=e0)
-        return ham, U.spinorb_terms([h1], norb), e0, "spinbroken"
+        # the same tensor through the GSO class, the General class and (in run_late_families) a bare tuple
+        if rng.random() < 0.5:
+            ham = fqe.get_gso_hamiltonian((h1,), e_0=e0)
+            return ham, U.spinorb_terms([h1], norb), e0, "spinbroken"
+        ham = fqe.get_general_hamiltonian((h1,), e_0=e0)
+        return ham, U.spinorb_terms([h1], norb), e0, "spinbroken", {"class": "General"}
     if route == "quadratic-sso":
         # spin-conserving spin-orbital one-body operator: the alpha and beta blocks are different complex Hermitian
         # matrices (spin-dependent hopping phases), no alpha-beta mixing
@@ -469,6 +473,34 @@ def run_main(ctx):
                     ctx.disagree(f"evolve:compose:{route}", "t1 then t2 differs from t1+t2", desc)
                 if numpy.abs(vec_of(back, dets) - psi).max() > 1e-8:
                     ctx.disagree(f"evolve:inverse:{route}", "-t does not undo t", desc)
+            except RuntimeError as exc:
+                if "expansion limit reached" in str(exc):
+                    ctx.count("raised-not-converged")
+                else:
+                    ctx.disagree(f"evolve-compose-raises:{route}:RuntimeError", str(exc), desc)
+            except Exception as exc:
+                ctx.disagree(f"evolve-compose-raises:{route}:{type(exc).__name__}", str(exc), desc)
+        else:
+            # polynomial propagators: a second step with the *same Hamiltonian object* composes, and the exact route
+            # with that object afterwards still gives exp(-itH) psi (the propagator must not leave its rescaled
+            # generator behind in the caller's Hamiltonian)
+            t2 = 0.21
+            try:
+                if api == "agu-taylor":
+                    step = out.apply_generated_unitary(t2, "taylor", ham, accuracy=1e-12, expansion=60)
+                else:
+                    ev = numpy.linalg.eigvalsh(H)
+                    step = out.apply_generated_unitary(t2, "chebyshev", ham, accuracy=1e-12, expansion=80,
+                                                       spec_lim=[float(ev.min()) - 0.1, float(ev.max()) + 0.1])
+                ctx.case(("compose-agu", case))
+                tol2 = 1e-6 if api == "agu-cheb" else 1e-8
+                if numpy.abs(vec_of(step, dets) - expm(-1j * (t + t2) * H) @ psi).max() > tol2 * max(1.0, float(numpy.linalg.norm(psi))):
+                    ctx.disagree(f"evolve:compose:{route}:{api}", "a second step with the same Hamiltonian object differs from expm(-i(t1+t2)H) psi", desc)
+                elif route in ("diagonal", "quadratic", "diagcoulomb", "quadratic-gso", "quadratic-sso", "quadratic-sb"):
+                    again = w.time_evolve(t, ham)
+                    if numpy.abs(vec_of(again, dets) - want).max() > 1e-8 * max(1.0, float(numpy.linalg.norm(psi))):
+                        ctx.disagree(f"evolve:hamiltonian-changed-by-propagator:{route}:{api}",
+                                     "time_evolve with the Hamiltonian object a polynomial propagator has used differs from expm(-itH) psi", desc)
             except RuntimeError as exc:
                 if "expansion limit reached" in str(exc):
                     ctx.count("raised-not-converged")
